@@ -43,10 +43,10 @@ type solver struct {
 // qcache is shared by the workers of one exploration: unsat cores and recent models
 // answer most feasibility queries without a solver call (after KLEE's counterexample cache).
 type qcache struct {
-	mu     sync.RWMutex
-	cores  map[*term][][]*term // query -> sets of path literals that make it unsatisfiable
-	models []map[string]uint64
-	next   int
+	mu                  sync.RWMutex
+	cores               map[*term][][]*term // query -> sets of path literals that make it unsatisfiable
+	models              []map[string]uint64
+	next                int
 	CoreHits, ModelHits int64
 	nAux, nInc          int64
 	tAux, tInc          time.Duration
@@ -397,7 +397,6 @@ func slowThreshold() time.Duration {
 	}
 	return 3 * time.Second
 }
-
 
 // checkStandalone decides (∧cs) ∧ q from scratch in QF_BV (non-incremental): z3's
 // bit-blasting tactic pipeline is several times faster on the assertion batches than
